@@ -2,7 +2,7 @@
 import re
 
 from engine import rule, AnchorLost
-from model import enum_edge, Super, PathSens, fn_of, trace, strace, is_place, site, const_value, uses_of_local, kind_tests
+from model import enum_edge, Super, PathSens, fn_of, trace, strace, strace_deep, is_place, site, const_value, uses_of_local, kind_tests
 import common
 import vocab
 
@@ -341,6 +341,71 @@ def _is_rewind_call(lib, t):
     return False
 
 
+_CURSOR_READ_ONLY = ("get_ref", "get_mut", "position", "len", "is_empty", "as_slice", "deref", "deref_mut", "as_ref", "index", "index_mut", "by_ref")
+
+
+def _cursor_touched_between(sup, b, lb, sb, fp, what):
+    """Is there a call, on a path from block `lb` (where a length or a position was read) to block `sb`, that can change
+    that reading: for a length, a call that receives a `&mut` into the cursor at `fp` (the cursor itself, or the vector
+    behind get_mut) and is not a mere view; for a position, set_position / a read / a write / a seek on the cursor."""
+    import symlin
+    after = b.reachable_from([t for _, t in b.edges(lb)])
+    for mb, mt in b.calls():
+        if mb == sb or mb not in after or sb not in b.reachable_from([t for _, t in b.edges(mb)]):
+            continue
+        f = fn_of(mt) or {}
+        if f.get("name") in _CURSOR_READ_ONLY:
+            continue
+        for a in mt["args"]:
+            if not is_place(a) or not str(a["p"].get("ty", "")).startswith("&mut"):
+                continue
+            tr = strace_deep(sup, ((), mb), a, extra=symlin._SLICE_PASS + symlin._VIEWS)
+            if tr.origin and tr.origin[0] == "arg" and (tr.origin[1],) + tuple(s[1] for s in reversed(tr.steps) if s[0] == "field") == fp:
+                via_vec = any(s[0] == "call" and s[1] in symlin._VIEWS for s in tr.steps)
+                if what == "len" or not via_vec:
+                    return True
+    return False
+
+
+def _position_follows_copy(lib, b, bb, t):
+    """A hand-written replay step: `set_position(E)` on a cursor whose position is moved either to the end of the
+    cursor's own buffer (through whatever helpers), or to exactly one past the last byte that a dominating
+    `copy_from_slice` took out of that buffer, the copy having started at the cursor's position:
+        dst.copy_from_slice(&buf[pos..E]); cursor.set_position(E)
+    with `dst` a buffer the function was given. Offsets are compared as symbolic linear forms (symlin), so
+    `buf[pos..][..n]` with `E = pos + n` and `buf[pos..pos + dst.len()]` with `E = to` are the same thing.
+    Returns the explanation, or None when the position is anything else (replayed bytes skipped or repeated)."""
+    import symlin
+    sup = Super(lib, b, depth=2)
+    node = ((), bb)
+    ct = strace_deep(sup, node, t["args"][0])
+    if not (ct.origin and ct.origin[0] == "arg"):
+        return None
+    fp = (ct.origin[1],) + tuple(s[1] for s in reversed(ct.steps) if s[0] == "field")
+    log = []
+    e = symlin.lin(sup, node, t["args"][1], log=log)
+    buf = ("buf", fp)
+    # a length or a position that went into E is only worth something if the buffer / the cursor cannot have changed
+    # between the reading and this call
+    for a, lnode in log:
+        lb = lnode[0][0][1] if lnode[0] else lnode[1]
+        if (a == ("len", buf) or a == ("pos", fp)) and _cursor_touched_between(sup, b, lb, bb, fp, a[0]):
+            return None
+    if e == symlin.atom(("len", buf)):
+        return "set_position(len of the cursor's own buffer): the cursor is moved to its end"
+    pos = symlin.atom(("pos", fp))
+    for cb, ctm in b.calls():
+        if (fn_of(ctm) or {}).get("name") != "copy_from_slice" or len(ctm["args"]) != 2 or not (b.dominates(cb, bb) and cb != bb):
+            continue
+        src = symlin.slice_desc(sup, ((), cb), ctm["args"][1])
+        dst = symlin.slice_desc(sup, ((), cb), ctm["args"][0])
+        if not src or not dst or src[0] != buf or dst[0][0] != "arg":
+            continue
+        if src[1] == pos and src[2] == e:
+            return f"set_position(one past the bytes copied out): the copy takes `{src[1]} .. {src[2]}` of the cursor's buffer into the caller's buffer and the cursor moves to `{e}`"
+    return None
+
+
 @rule("R09.1", 5, "rewind typestate: the capture reader is reachable only through accessors that rewind it first", ["C09"])
 def r09_1(ctx):
     lib = ctx.lib
@@ -363,6 +428,16 @@ def r09_1(ctx):
         ctx.ob(f"field-access:{b.name}", own, site(b), "guarded field touched only by the guard's own methods" if own else "the guarded capture reader is reached around the rewinding accessors")
         if not own:
             continue
+        # a method that only reads or writes a plain field inside the guarded reader (`self.0.lookahead = limit`) and
+        # never takes a reference to the reader itself hands nothing out
+        def _beyond(p_):
+            gi = max(i for i, e in enumerate(p_["pr"]) if e["k"] == "field" and e.get("adt") == guard)
+            return [e for e in p_["pr"][gi + 1:] if e["k"] == "field"]
+        scalar_only = all(_beyond(p_) and not any(w in str(p_.get("ty", "")) for w in (cap.split("<")[0].rsplit("::", 1)[-1], "Cursor", "dyn ")) for _, p_ in uses)
+        whole_ref = any(s_["k"] == "assign" and s_["rv"]["k"] in ("ref", "rawptr") and any(e["k"] == "field" and e.get("adt") == guard for e in s_["rv"]["p"]["pr"]) and not _beyond(s_["rv"]["p"]) for blk_ in b.blocks for s_ in blk_["stmts"])
+        if scalar_only and not whole_ref and cap.split("<")[0].rsplit("::", 1)[-1] not in str(b.raw.get("ret_ty", "")):
+            ctx.ob(f"rewinds-before-exposing:{b.name}", True, site(b), "touches a plain field of the guarded reader only: the reader itself is not handed out", trivial=True)
+            continue
         rew = [bb for bb, t in b.calls() if _is_rewind_call(lib, t)]
         ok = bool(rew) and all(any(b.dominates(r, rb) and r != rb for r in rew) for rb in b.return_blocks())
         ctx.ob(f"rewinds-before-exposing:{b.name}", ok, site(b), "rewind dominates every return" if ok else "the accessor hands out the reader without rewinding it")
@@ -374,18 +449,17 @@ def r09_1(ctx):
             if f.get("name") == "set_position" and f.get("def", "").startswith("std::io::Cursor"):
                 v = const_value(t["args"][1])
                 to_end = False
-                if v is None:
-                    # `cursor.set_position(cursor.get_ref().len() as u64)`: to the end of its own buffer, where
-                    # `write_all` at the end would have left it after appending
-                    lt = trace(b, t["args"][1], passthrough_extra=("cast",))
-                    if lt.origin and lt.origin[0] == "call" and (fn_of(lt.origin[2]) or {}).get("name") == "len" and lt.origin[2]["args"]:
-                        views = ("std::io::Cursor::<T>::get_ref", "std::io::Cursor::<T>::get_mut")
-                        vt = trace(b, lt.origin[2]["args"][0], passthrough_extra=views)
-                        ct_ = trace(b, t["args"][0])
-                        vf = [x[1] for x in vt.steps if x[0] == "field"]
-                        cf = [x[1] for x in ct_.steps if x[0] == "field"]
-                        to_end = bool(vf) and vf == cf and vt.origin == ct_.origin and any(x[0] == "call" and x[1] in views for x in vt.steps)
-                ctx.ob(f"set_position:{b.name}", v == 0 or to_end, site(b, bb), f"set_position({v})" if not to_end else "set_position(len of the cursor's own buffer): the cursor is moved to its end")
+                how = None
+                ct_ = trace(b, t["args"][0])
+                if not (b.raw.get("impl_self_adt") in (cap, guard) or any(x[0] == "field" and x[2] in (cap, guard) for x in ct_.steps)):
+                    # a cursor of the function's own (`Cursor::new(head)` positioned past a mark it has just compared):
+                    # not the capture reader's replay cursor, whose typestate this rule is about
+                    ctx.ob(f"set_position:{b.name}", True, site(b, bb), "a cursor that is not the capture reader's: outside the rewind typestate", trivial=True)
+                    continue
+                if v is None and not to_end:
+                    how = _position_follows_copy(lib, b, bb, t)
+                    to_end = how is not None
+                ctx.ob(f"set_position:{b.name}", v == 0 or to_end, site(b, bb), f"set_position({v})" if not to_end else (how or "set_position(len of the cursor's own buffer): the cursor is moved to its end"))
     # the capture reader type is constructed only inside the guard
     for b in lib.bodies:
         for bb, t in b.calls():
@@ -1077,7 +1151,61 @@ def _short_of_take_limit(b, read_call, at_bb):
             # the limit allowed
             if s_["rv"]["op"] in ("Lt", "Gt") and _short_of_requested_total(b, read_call, a_, c_) and b.edge_dominates(sb, "otherwise", sw["otherwise"], at_bb):
                 return True
+            # `gained < limit` with `gained = buf.len() [after the drain] - buf.len() [before it]`: the growth of the
+            # vector the bounded read appended to is the count that read returned
+            if ok_lim and _is_growth_of_read_buffer(b, read_call, a_) and b.edge_dominates(sb, "otherwise", sw["otherwise"], at_bb):
+                return True
     return False
+
+
+def _is_growth_of_read_buffer(b, read_call, op):
+    """`op` is `len_after - len_before`, both lengths of the vector that `read_call` (a read_to_end) appends to, the
+    first measured after that call and the second before it, with nothing else that can touch the vector in between."""
+    import symlin
+    tr = trace(b, op)
+    o = tr.origin
+    if not (o and o[0] == "rvalue" and o[1]["rv"]["k"] == "binop" and o[1]["rv"]["op"] in symlin._SUB):
+        return False
+    rb = [cb for cb, ct in b.calls() if ct is read_call]
+    if not rb or len(read_call["args"]) < 2:
+        return False
+    rb = rb[0]
+    sup = Super(b.crate, b, depth=2)
+    dest = symlin.slice_desc(sup, ((), rb), read_call["args"][1])
+    if not dest or dest[0][0] != "buf":
+        return False
+    fp = dest[0][1]
+
+    def len_site(x):
+        t_ = trace(b, x)
+        if not (t_.origin and t_.origin[0] == "call" and (fn_of(t_.origin[2]) or {}).get("name") == "len" and t_.origin[2]["args"] and all(st[0] == "use" for st in t_.steps)):
+            return None
+        sd = symlin.slice_desc(sup, ((), t_.origin[1]), t_.origin[2]["args"][0])
+        if not sd or sd[0] != dest[0] or sd[1] != symlin.Lin() or sd[2] != symlin.atom(("len", dest[0])):
+            return None
+        return t_.origin[1]
+
+    la, lb = len_site(o[1]["rv"]["a"]), len_site(o[1]["rv"]["b"])
+    if la is None or lb is None:
+        return False
+    if not (b.dominates(rb, la) and la != rb and b.dominates(lb, rb) and lb != rb):
+        return False
+
+    def touched(frm, to, skip):
+        after = b.reachable_from([t for _, t in b.edges(frm)])
+        for mb, mt in b.calls():
+            if mb in (to, skip) or mb not in after or to not in b.reachable_from([t for _, t in b.edges(mb)]):
+                continue
+            if (fn_of(mt) or {}).get("name") in _CURSOR_READ_ONLY:
+                continue
+            for a in mt["args"]:
+                if is_place(a) and str(a["p"].get("ty", "")).startswith("&mut"):
+                    t2 = strace_deep(sup, ((), mb), a, extra=symlin._SLICE_PASS + symlin._VIEWS)
+                    if t2.origin and t2.origin[0] == "arg" and (t2.origin[1],) + tuple(x[1] for x in reversed(t2.steps) if x[0] == "field") == fp:
+                        return True
+        return False
+
+    return not touched(lb, rb, None) and not touched(rb, la, None)
 
 
 def _drained_nothing_with_room(b, read_call, at_bb):
@@ -1620,4 +1748,19 @@ def r09_12(ctx):
         ctx.ob(f"fills-request:{b.name}", not single, sup.site(single[0][0]) if single else site(b),
                f"{len(pulls)} source read(s), each one draining (read_to_end/read_exact) or repeated in a loop" if not single else
                f"`{b.name}` asks the source once (`{single[0][1]}`) and goes on with whatever arrived: a reader that delivers fewer bytes than requested (a pipe, a socket) leaves the look-ahead short although more input follows — encoding and format detection then decide on a truncated prefix")
+        # how much is asked for: a bounded drain `take(limit)` into the capture buffer asks for the whole shortfall,
+        # `T - len(captured)` with T the requested total (possibly capped by `min`): the captured length is taken
+        # off once. Forms the algebra does not resolve are left to the other obligations.
+        import symlin
+        for nn, bx, t in sup.calls():
+            if (fn_of(t) or {}).get("def") != "std::io::Read::take" or len(t["args"]) != 2 or nn[0]:
+                continue
+            lim = symlin.lin(sup, nn, t["args"][1])
+            lens = [a for a in lim.terms if a[0] == "len" and a[1][0] == "buf"]
+            mins = [a for a in lim.terms if a[0] == "min"]
+            twice = any(lim.terms[a] < -1 for a in lens) or any(lim.terms.get(a, 0) < 0 and any(x[0] == "len" and x[1] == a[1] and c < 0 for m_ in mins for side in m_[1] for x, c in side.terms.items()) for a in lens)
+            if lens or mins:
+                ctx.ob(f"asks-for-the-whole-shortfall:{b.name}", not twice, sup.site(nn),
+                       f"take({lim}): the captured length is taken off the requested total once" if not twice else
+                       f"take({lim}): the captured length is subtracted more than once, so a request made after earlier look-ahead is filled short of what was asked for (and a trial that needs the whole prefix sees a truncated one)")
     ctx.ob("capture-entry-points", n >= 2, cap, f"{n} capture entry point(s) that read from the source examined")
